@@ -16,7 +16,7 @@ from .core import PathEnd, Conflict, St, Frame, join, join_heap, join_st, BUILTI
 
 
 class Interp:
-    def __init__(self, prog, loop_taint=True, summaries=None):
+    def __init__(self, prog, loop_taint=True, summaries=None, d4=False):
         from .prims import PRIMS
         self.prog = prog
         self.prims = PRIMS
@@ -24,6 +24,7 @@ class Interp:
         self._ckeys = set()
         self.unknown = []        # unknown primitives / unsupported constructs met (=> undecided if they matter)
         self.loop_taint = loop_taint
+        self.d4 = d4
         self.pc = frozenset()
         self.in_assert = 0
         self.next_oid = 1
